@@ -79,3 +79,21 @@ Proof.
   intro Hb. exists (ds_of_dna (map ascii_base bytes)). split; [apply (from_acgt_paths_agree bytes Hb)|].
   split; [apply ds_of_dna_inv, ascii_bases_wf | cbn; apply map_length].
 Qed.
+
+(* the direct reading of the representation (base i = lane 31 - i mod 32 of block i / 32) gives back the list *)
+Lemma lane_formula s j : (j < 32)%nat ->
+  (s / 4 ^ N.of_nat (31 - j)) mod 4 = N.land (N.shiftr s (N.of_nat (62 - j * 2))) 3.
+Proof.
+  intro H. change 3 with (N.ones 2). rewrite N.land_ones, N.shiftr_div_pow2. change (2 ^ 2) with 4.
+  rewrite pow4. do 3 f_equal. lia.
+Qed.
+Theorem dna_of_storage_spec l : wf_dna l -> dna_of_storage (ds_storage (ds_of_dna l)) (length l) = l.
+Proof.
+  intro Hw. unfold dna_of_storage.
+  transitivity (map (fun i => nth i l 0) (seq 0 (length l))); [| apply map_nth_seq].
+  apply map_ext_in. intros i Hi. apply in_seq in Hi.
+  assert (Hlt : (i < length l)%nat) by lia.
+  pose proof (ds_get_spec l i Hw Hlt) as G. unfold ds_get in G. rewrite addr_eq in G.
+  destruct (Nat.ltb (i / 32) (length (ds_storage (ds_of_dna l)))); [| discriminate].
+  injection G as G. rewrite <- G. apply lane_formula. apply Nat.mod_upper_bound. lia.
+Qed.
